@@ -49,6 +49,10 @@ func ExecInter(c InterCase) (res core.Result) {
 	p := plug.ByName(c.Plugin)
 	h6, err6 := p.Setup6(c.Args6...)
 	h4, err4 := p.Setup4(c.Args4...)
+	if (err4 != nil && optionalSpelling(&OptCase{Plugin: c.Plugin, Args: c.Args4})) || (err6 != nil && optionalSpelling(&OptCase{Plugin: c.Plugin, Args: c.Args6})) {
+		res.Classes = append(res.Classes, "optional-spelling-refused")
+		return
+	}
 	if err4 != nil || err6 != nil || h4 == nil || h6 == nil {
 		res.Viol = core.Violate("C17/"+c.Plugin+"/setup-rejects-valid-args", "Setup4(%q): %v / Setup6(%q): %v", c.Args4, err4, c.Args6, err6)
 		return
@@ -101,7 +105,7 @@ func ExecInter(c InterCase) (res core.Result) {
 			switch c.Plugin {
 			case "searchdomains":
 				names, ok := gen.DecodeNames(data[119])
-				if !ok || strings.Join(names, " ") != strings.Join(c.Args4, " ") {
+				if !ok || strings.Join(names, " ") != strings.Join(plainNames(c.Args4), " ") {
 					v = core.Violate("C17/searchdomains/wrong-value", "call #%d (DHCPv4) of %v: reply carries search list %q, configured %q (DHCPv6 instance: %q)", i, c.Order, names, c.Args4, c.Args6)
 				}
 			case "dns":
@@ -134,7 +138,7 @@ func ExecInter(c InterCase) (res core.Result) {
 			switch {
 			case c.Plugin == "searchdomains" && t6.Code == 24:
 				names, ok := gen.DecodeNames(t6.Data)
-				if !ok || strings.Join(names, " ") != strings.Join(c.Args6, " ") {
+				if !ok || strings.Join(names, " ") != strings.Join(plainNames(c.Args6), " ") {
 					v = core.Violate("C17/searchdomains/wrong-value", "call #%d (DHCPv6) of %v: reply carries search list %q, configured %q (DHCPv4 instance: %q)", i, c.Order, names, c.Args6, c.Args4)
 				}
 			case c.Plugin == "dns" && t6.Code == 23:
